@@ -7,7 +7,7 @@ import re
 from harness import core
 
 GEN = ['gen_tables', 'gen_regex', 'gen_config']
-THEOREMS = ['C06_simple_emphasis', 'C06_simple_emphasis_hypotheses', 'C06_tables', 'C06_flanking', 'C06_closed_by', 'C06_bounded_alpha5_7', 'C06_bounded_star_under_12']
+THEOREMS = ['C06_simple_emphasis', 'C06_simple_emphasis_hypotheses', 'C06_emphasis_in_sentence', 'C06_emphasis_in_sentence_hypotheses', 'C06_tables', 'C06_flanking', 'C06_closed_by', 'C06_bounded_alpha5_7', 'C06_bounded_star_under_12']
 TRUSTED = ['Spec/Delims.v: the CommonMark 0.30 delimiter algorithm written from the specification appendix (the yardstick)',
            'the model of core_tokens.py / span_tokenizer.py (tied by X-doc and X-inline)',
            'vm_compute for the kernel sweeps (33 shard files)']
@@ -129,6 +129,30 @@ def run(ctx, only=None):
             ctx.failing.append({'interface': 'oracle(simple emphasis)', 'input': {'text': t_}, 'what': 'one pair of delimiter runs around plain text is not one emphasis',
                                 'observed': g, 'expected': e, 'kf': None})
     compare(ctx, simple[:2000], 'simple_emphasis_vs_spec')
+    # the class of C06_emphasis_in_sentence: the same pair of runs with plain text before and after it
+    befores = ['', ' ', 'see ', 'a, ', '(', 'it is (', 'x: ', '"', 'one two. ', 'é — ', 'tab\t', '中。', 'n-']
+    afters = ['', ' ', ' more', '.', ', and', ')', ') then', ': y', '"', '; z', '?', ' — é', '\tq', '。中', '-n']
+    sent, want = [], []
+    for _ in range(4000 if ctx.quick() else 60000):
+        w = ' '.join(rng.choice(pieces) for _ in range(rng.randint(1, 8)))
+        if not (w[0].isalnum() and w[-1].isalnum()):
+            continue
+        ch, dbl = rng.choice('*_'), rng.random() < 0.5
+        run_ = ch * (2 if dbl else 1)
+        pre = ''.join(rng.choice(pieces) + ' ' for _ in range(rng.randint(0, 4))) + rng.choice(befores)
+        post = rng.choice(afters) + ''.join(' ' + rng.choice(pieces) for _ in range(rng.randint(0, 4)))
+        sent.append(pre + run_ + w + run_ + post)
+        want.append(pre + (('<strong>%s</strong>' if dbl else '<em>%s</em>') % w) + post)
+    with mp.Pool(core.NPROC) as pool:
+        got = [x for part in pool.map(impl_emph, chunks(sent, 2000)) for x in part]
+    for t_, g, e in zip(sent, got, want):
+        ctx.count('evaluations')
+        ctx.count('strings_emphasis_in_sentence')
+        if g != e:
+            ctx.failing.append({'interface': 'oracle(emphasis in a sentence)', 'input': {'text': t_},
+                                'what': 'one pair of delimiter runs inside plain text is not plain text, one emphasis, plain text',
+                                'observed': g, 'expected': e, 'kf': None})
+    compare(ctx, sent[:2000], 'emphasis_in_sentence_vs_spec')
     ctx.count('distinct_nontrivial', sum(1 for s in texts if len(re.findall(r'\*+|_+', s)) >= 2))
     ctx.sample({'text': '*a **b c** d*', 'implementation': impl_emph(['*a **b c** d*'])[0]})
 
